@@ -510,6 +510,22 @@ class CbSpec:
             res += f':one-call-{self.group[1]}:' + (f'after-{self.earlier}' if self.earlier else 'first-of-several')
         return res
 
+    def sigpattern(self):
+        """pattern class for signatures: for a member of a grouped registration the level, its own behaviour and the kind of
+        members registered before it in the same call (not which callback name or call style - those are in the detail)"""
+        if self.group is None:
+            return self.pattern()
+        if not self.earlier:
+            prev = 'first-of-several'
+        elif 'oneshot' in self.earlier:
+            prev = 'after-a-oneshot-member'
+        elif 'raise' in self.earlier:
+            prev = 'after-a-raising-member'
+        else:
+            prev = 'after-recording-members'
+        return (f'{self.levelname}:{self.behaviour}:' + ('before' if self.reg == 0 else 'after-messages') +
+                (':unregistered-midway' if self.unreg is not None else '') + f':registered-in-one-call:{prev}')
+
     def __call__(self, *args):
         if self.cbname == 'updateItem':
             module, param, item = args
@@ -783,7 +799,7 @@ def execute(desc, refmodules, msgs, specs, clock, part, case, pending=()):
         res = compare_calls(s, exp, s.calls)
         if res is not None:
             kind = next((m['tag'] for m, e in zip(msgs, effects) if e is not None), 'no-effective-message')
-            part.violation(f'C12:callback:{s.pattern()}:{res[0]}', case,
+            part.violation(f'C12:callback:{s.sigpattern()}:{res[0]}', case,
                            f'history {hist}; callback {s!r}: {res[1]}; calls {s.calls!r}; first effective message {kind}')
     return ref
 
